@@ -212,7 +212,8 @@ def c14_jobs(tier):
     js = []
     for op in OPS_GROW:
         for (n, cap) in cells(tier):
-            js.append(ops_job(op, 'int', n, cap, maxcnt=2 if tier == 'quick' else 3, witness=['normal return', 'reallocating path']))
+            w = ['normal return'] + ([] if (op in ('assign_range', 'assign_il', 'assign_op_il') and cap >= 3) else ['reallocating path'])
+            js.append(ops_job(op, 'int', n, cap, maxcnt=2 if tier == 'quick' else 3, witness=w))
         if tier != 'quick':
             for (n, cap) in [(2, 2), (2, 4)]: js.append(ops_job(op, 'Tr', n, cap, witness=['normal return', 'reallocating path']))
     return _nn(js)
@@ -284,3 +285,71 @@ REG['C09'] = Spec('C09', c09_jobs, tags=['C09'], memsafe=True, explanation=
     'Move construction / move assignment / assign(&&) / swap on an instrumented element type: whenever the documented steal condition holds (written from the property text: source heap, '
     'source capacity > destination inline capacity, allocators interchangeable) the destination data() must be the source\'s old data(), capacity preserved, per-object touch counters of the transferred '
     'elements unchanged, global element events == destruction of the destination\'s previous elements, no allocation, source empty and inlined; otherwise the element-wise result; the moved-from source is valid and reusable.')
+
+# ---------------------------------------------------------------- C14: geometric growth
+from .jobs import kern_job
+SIZETS = ['uint8_t', 'uint16_t', 'uint32_t', 'std::size_t']
+def c14_all(tier):
+    js = [kern_job(st, kn=kn, esz=esz) for st in SIZETS for (kn, esz) in ([(0, 1), (2, 4)] if tier == 'quick' else [(0, 1), (2, 4), (3, 8), (1, 1)])]
+    return js + c14_jobs(tier)
+REG['C14'] = Spec('C14', c14_all, tags=['C14'], explanation=
+    '(a) the growth kernel unchecked/checked_calculate_new_capacity driven at FULL WIDTH (size, capacity, required, max_size unconstrained 64-bit words; size_type 8/16/32/64 bit): '
+    'for all cap < required <= max_size the result is >= required, <= max_size and >= min(max_size, cap + cap/2). (b) every growing path uses it: for each growing operation from an arbitrary state in which it reallocates, '
+    'capacity() after satisfies the same inequalities w.r.t. capacity() before and the model size. (c) "O(log n) allocations / O(n) relocations for n push_backs" follows from (a)+(b) by the textbook summation '
+    '(cap_k >= 1.5^k cap_0: at most log_1.5(n) reallocations, relocating sum_k cap_k <= 3n elements); the summation is an argument, not a solver claim; million-element runs are not executed.',
+    bounds=lambda tier: {'kernel': 'all 64-bit values of size, capacity, required, count and allocator max_size for size_type in {uint8_t,uint16_t,uint32_t,size_t}'})
+
+# ---------------------------------------------------------------- C12: max_size / length_error / no wrap
+def c12_jobs(tier):
+    js = [kern_job(st, kn=kn, esz=esz) for st in SIZETS for (kn, esz) in ([(0, 1), (2, 4)] if tier == 'quick' else [(0, 1), (2, 4), (3, 8), (1, 1)])]
+    grow = [op for op in OPS_GROW]
+    W = ['normal return', 'length_error exit']
+    for op in grow:
+        for (n, cap, m) in ([(2, 2, 3), (2, 4, 5), (0, 2, 3)] if tier == 'quick' else [(2, 2, 3), (2, 4, 5), (0, 2, 3), (0, 0, 1), (3, 3, 4), (2, 3, 3), (1, 2, 2)]):
+            if op in ('push_back_c', 'push_back_m', 'emplace_back', 'insert_c', 'insert_m', 'emplace'): m = max(cap, 1)
+            if op in ('assign_range', 'assign_il', 'assign_op_il'):
+                if cap > 2: continue
+                m = 2
+            js.append(ops_job(op, 'int', n, cap, maxsz=m, witness=W))
+            if tier != 'quick' or (op in ('insert_n', 'push_back_c', 'resize_v', 'append_range') and (n, cap) == (2, 4)):
+                js.append(ops_job(op, 'Tr', n, cap, maxsz=m, witness=W))
+    # narrow size_type allocators: same operations, size_type = uint8_t / uint16_t (internal size type uint_fast8_t is 8 bits here)
+    for op in (['insert_n', 'push_back_c', 'resize_v', 'assign_n', 'reserve', 'append_range'] if tier == 'quick' else grow):
+        for st in ['uint8_t', 'uint16_t'] + ([] if tier == 'quick' else ['uint32_t']):
+            js.append(ops_job(op, 'int', 2, 4, maxsz=4 if op == 'push_back_c' else 5, sizet=st, witness=W))
+    return _nn(js)
+REG['C12'] = Spec('C12', c12_jobs, tags=['C12'], memsafe=True, explanation=
+    '(a) size arithmetic at full width: max_size() == min(allocator max, difference_type max) and fits size_type; the growth kernel never exceeds max_size nor truncates when stored; the guard max_size()-size() < count is exact and size()+count cannot wrap '
+    'in the internal size type (8/16/32/64-bit size_type). (b) behaviour at the limit: the allocator reports a small harness-chosen max_size M so that "one past max_size" is reachable with a handful of elements: every growing operation from an arbitrary state whose '
+    'result would exceed M must throw std::length_error and leave the container unchanged; the allocator hook asserts it is never asked for more than max_size(); writes past a block are cbmc bounds violations (exact-size blocks). '
+    '(c) constructors and range lengths beyond max_size: see the constructor / iterator checks of this property.')
+
+# ---------------------------------------------------------------- C15: single-pass inputs, forward ranges, generator
+from .jobs import rng_job
+K_ITER = J.K_DEREF | J.K_INC | J.K_CMP
+def c15_jobs(tier):
+    js = []
+    rops = ['ctor_range', 'assign_range', 'insert_range', 'append_range']
+    cs = [(2, 2), (2, 4), (0, 2)] if tier == 'quick' else [(2, 2), (2, 4), (0, 2), (0, 0), (3, 3), (1, 2)]
+    for op in rops:
+        for (n, cap) in cs:
+            if op == 'ctor_range' and cap != n: continue
+            for itk in (1, 2, 3):
+                js.append(rng_job(op, 'int', n, cap, itk=itk))
+            for ln in range(0, 4):   # single-pass: the length is pinned so that symex bounds the consuming loop exactly; size/position/values stay symbolic
+                js.append(rng_job(op, 'int', n, cap, itk=0, lenfix=ln))
+    # instrumented element type with single-pass input: size and length pinned, values and positions symbolic
+    for op in rops:
+        for (sz, ln) in ([(3, 2), (1, 3), (0, 1)] if tier == 'quick' else [(s, l) for s in range(0, 5) for l in range(0, 4)]):
+            js.append(rng_job(op, 'Tr', 2, 2 if op == 'ctor_range' else 4, itk=0, lenfix=ln, sizefix=None if op == 'ctor_range' else sz))
+        js.append(rng_job(op, 'Tr', 2, 2 if op == 'ctor_range' else 4, itk=1))
+    for el in ('int', 'Tr'):
+        for n in (0, 2): js.append(rng_job('ctor_gen', el, n, n))
+    for n in (0, 2):
+        js.append(rng_job('ctor_count', 'int', n, n)); js.append(rng_job('ctor_count_val', 'int', n, n)); js.append(rng_job('ctor_il', 'int', n, n))
+    js.append(rng_job('ctor_count', 'Tr', 2, 2)); js.append(rng_job('ctor_count_val', 'Tr', 2, 2)); js.append(rng_job('ctor_il', 'Tr', 2, 2))
+    return _nn(js)
+REG['C15'] = Spec('C15', c15_jobs, tags=['C15', 'C01'], memsafe=True, explanation=
+    'Instrumented iterators over a harness-owned array: every dereference / increment / comparison goes through hooks that keep one stream cursor. Input category (strict): a copy whose snapshot is older than the cursor must never be '
+    'dereferenced, incremented or compared; nothing at or beyond last; at the end every position was dereferenced exactly once and incremented exactly once and the cursor is at last. Forward / random-access: never advanced or read at or past last. '
+    'Generator constructor: called exactly count times, i-th value in slot i. Results equal the sequence model (hence the random-access result). Constructors from count / value / initializer_list are included.')
